@@ -34,6 +34,15 @@ CHECKS = {
              '(only ProphyError; result encodes; decode(encode()) fixpoint; time bound) on the real code.',
         note='Full induction over schemas is the stated target. Known finding D21 (greedy tail not ending aligned) is matched by signature. Wall time / memory are runtime facts measured by the harness, not theorems.',
         technique='Lean 4 proof over an executable model + differential correspondence on malformed inputs', ref='5/C06'),
+    'C14': dict(
+        text='Lean 4 theorems over tables regenerated from the sources on every run (the yacc precedence tables of the prophy parser '
+             'and of calc are equal and are exactly the levels of the model parser; every binop action applies the integer operator, '
+             '`/` being floor division in both evaluators) and over the evaluator model (`/` is the integer quotient, `<<` multiplication '
+             'by a power of two, evaluation total with three designed errors). The tokenizer/precedence parser/evaluator model is tied to '
+             'the code by running random expressions through the real prophy parser and calc; the property itself is evaluated on the '
+             'real tool against integer arithmetic on the tree: node values, generated Python values, generated C++ values (static_assert).',
+        note='PLY (LALR construction, conflict resolution by the precedence table) is trusted. Known finding D27b (isar text with raw shifts) matched by signature.',
+        technique='Lean 4 proof over source-derived tables and an executable model + differential correspondence', ref='5/C14'),
     'C15': dict(
         text='Lean 4 theorems about the model of prophyc/model.py topological_sort (rotation algorithm with known/available sets, '
              'find_first_dep, insert/pop, rotation bound): for EVERY node list whatever it returns is a permutation of the input and is '
